@@ -167,6 +167,7 @@ def saturation_mutagenesis(model, X, args=None, start=0, end=-1, batch_size=32,
 		The outputs from the model for each of the perturbed sequences.
 	"""
 
+	end = end if end >= 0 else X.shape[-1] + 1 + end
 	y0 = predict(model, X, args=args, device=device)
 	
 	y_hat = []
